@@ -521,7 +521,7 @@ func RunC06Multi(ctx *core.Ctx) {
 	flush(true)
 	// random, larger
 	r := ctx.Rand("c06multi")
-	n := ctx.Scale(12000, 300000)
+	n := ctx.Scale(12000, 150000)
 	for i := 0; i < n; i++ {
 		c := c06MultiRand(r)
 		if i < 3 {
